@@ -36,6 +36,17 @@ reference (`distortion_def`); that this is the paraxial image height is only the
 `distortion_ref_is_paraxial_partial`.  No theorem at all concerns `pupilAberration`, `yybarSegments`,
 `rmsVsFieldHy`, `fanPupil`/`fanShift` (beyond `rayFan_code_eq_spec`) or `gridOut`'s `max_distortion`:
 for those analyses the claim rests on the differential correspondence only.
+
+Round-8 additions (end of file):
+* distortion sign follows the SIGNED reference height: `dist_term_pos_iff`, `dist_term_abs_differs_iff`
+  (slip "/|y_p|" differs iff `y_p < 0 ∧ y ≠ y_p`), `distortion_sign_signed_height`, `distortion_inverted_image`
+* field curvature on a curved image: `fcTangential_own_z`, `fcTangential_same_slice_misses_focus`,
+  `fcSagittal_mirror_pair` (mirror relation of the sagittal pair is a hypothesis on the records)
+* spot diagrams: `center_center`, `center_zero`, `radii_translation_invariant`, `centring_on_copy`,
+  `centroid_changes_if_centred_in_place`; `'all'` RMS: `opRmsAll_same_samples`, `opRmsAll_mean_of_wavelength_means`
+* sampling: `linspace_getD`, `linspace_symmetric`, `fanPupil_symmetric`, `rayFan_reference_zero`,
+  `rmsVsField_samples`; FINDING (edge) `fanPupil_one_point_not_chief`
+* `yybar_segments_spec`, `pupilAb_spec`
 -/
 namespace C12
 open Model Model.An AnProofs
@@ -695,5 +706,627 @@ single-wavelength operand (two differently written computations agree, every car
 theorem operand_rms_all_single {α : Type} [Num α] (rs : List (Ray α)) :
     opRmsAll [rs] 0 = opRmsSingle rs := by
   simp [opRmsAll, opRmsSingle, List.zipWith_map, List.zipWith_self]
+
+/-! ### round-8 additions: sign of the distortion, own-z tangential focus, sagittal symmetry,
+centring on a copy, `'all'`-wavelength RMS, symmetric fan sampling, y-ybar segments -/
+
+/-! #### (a) distortion: the sign follows the SIGNED reference height -/
+
+/-- one distortion term `100 (y − y_p)/y_p` with image point and reference on the same side of the
+axis (`y·y_p > 0`): it is positive exactly when the real image point is farther from the axis
+than the reference, whatever the sign of `y_p` (upright or inverted image). -/
+theorem dist_term_pos_iff (y yp : ℝ) (hs : 0 < y * yp) :
+    0 < 100 * (y - yp) / yp ↔ |yp| < |y| := by
+  have hp0 : yp ≠ 0 := by
+    intro h
+    rw [h, mul_zero] at hs
+    exact lt_irrefl _ hs
+  rcases lt_or_gt_of_ne hp0 with hn | hpos
+  · have hy : y < 0 := by
+      by_contra hc
+      push Not at hc
+      nlinarith [mul_nonneg hc (neg_pos.mpr hn).le]
+    rw [abs_of_neg hn, abs_of_neg hy]
+    constructor
+    · intro h
+      by_contra hc
+      push Not at hc
+      have : 100 * (y - yp) / yp ≤ 0 := div_nonpos_of_nonneg_of_nonpos (by linarith) hn.le
+      linarith
+    · intro h
+      exact div_pos_of_neg_of_neg (by linarith) hn
+  · have hy : 0 < y := by
+      by_contra hc
+      push Not at hc
+      nlinarith [mul_nonneg (neg_nonneg.mpr hc) hpos.le]
+    rw [abs_of_pos hpos, abs_of_pos hy]
+    constructor
+    · intro h
+      by_contra hc
+      push Not at hc
+      have : 100 * (y - yp) / yp ≤ 0 := div_nonpos_of_nonpos_of_nonneg (by linarith) hpos.le
+      linarith
+    · intro h
+      exact div_pos (by linarith) hpos
+
+/-- the seeded slip "divide by `|y_p|`" against the code's "divide by `y_p`": the two agree exactly
+when the reference height is positive or the term vanishes; for a negative reference height
+(inverted image: finite object, relay) the slip reports the opposite sign. -/
+theorem dist_term_abs_differs_iff (y yp : ℝ) (hp : yp ≠ 0) :
+    (100 * (y - yp) / |yp| = 100 * (y - yp) / yp ↔ (0 < yp ∨ y = yp)) ∧
+    (yp < 0 → 100 * (y - yp) / |yp| = -(100 * (y - yp) / yp)) := by
+  constructor
+  · constructor
+    · intro h
+      by_contra hc
+      push Not at hc
+      obtain ⟨h1, h2⟩ := hc
+      have hneg : yp < 0 := lt_of_le_of_ne h1 hp
+      rw [abs_of_neg hneg, div_neg] at h
+      have h0 : 100 * (y - yp) / yp = 0 := by linarith
+      rcases div_eq_zero_iff.mp h0 with h3 | h3
+      · exact h2 (by linarith)
+      · exact hp h3
+    · rintro (h | h)
+      · rw [abs_of_pos h]
+      · rw [h]
+        simp
+  · intro h
+    rw [abs_of_neg h, div_neg]
+
+example : (0 : ℝ) < (-2) * (-1) ∧ (-1 : ℝ) ≠ 0 := by norm_num
+
+/-- `distortion_height` written out over ℝ -/
+theorem distortion_height_unfold (hy yr : List ℝ) :
+    distortion_height hy yr =
+      List.zipWith (fun h y => 100 * (y - yr.headD 0 / eps10 * h) / (yr.headD 0 / eps10 * h)) hy yr := by
+  unfold distortion_height
+  simp only [hundred_val]
+
+/-- **distortion_sign_signed_height** (object-height fields, `distortion_height`): at a field
+`h > 0` with small-field chief-ray height `y0 ≠ 0` (negative for an inverted image) the value
+reported is `100 (y − y_p)/y_p` with the SIGNED reference `y_p = y0/ε·h`; if the real image point
+is on the same side as the reference the value is positive iff `|y| > |y_p|` (pincushion), for
+either sign of `y0`; and dividing by `|y_p|` instead changes the value iff `y0 < 0 ∧ y ≠ y_p`
+(then it flips the sign). -/
+theorem distortion_sign_signed_height (y0 h y : ℝ) (hy : List ℝ) (yr : List ℝ) (hy0 : y0 ≠ 0) (hh : 0 < h)
+    (hsame : 0 < y * y0) :
+    let yp := y0 / eps10 * h
+    distortion_height (eps10 :: h :: hy) (y0 :: y :: yr) =
+      0 :: (100 * (y - yp) / yp) :: (distortion_height (eps10 :: h :: hy) (y0 :: y :: yr)).tail.tail ∧
+    (0 < 100 * (y - yp) / yp ↔ |yp| < |y|) ∧
+    (100 * (y - yp) / |yp| ≠ 100 * (y - yp) / yp ↔ (y0 < 0 ∧ y ≠ yp)) ∧
+    (y0 < 0 → 100 * (y - yp) / |yp| = -(100 * (y - yp) / yp)) := by
+  intro yp
+  have he : (0 : ℝ) < eps10 := by rw [eps10_val]; norm_num
+  have hc : 0 < h / eps10 := div_pos hh he
+  have hyp : yp = y0 * (h / eps10) := by
+    show y0 / eps10 * h = _
+    ring
+  have hyp0 : yp ≠ 0 := by
+    rw [hyp]
+    exact mul_ne_zero hy0 hc.ne'
+  have hsgn : 0 < y * yp := by
+    rw [hyp]
+    have : y * (y0 * (h / eps10)) = (y * y0) * (h / eps10) := by ring
+    rw [this]
+    exact mul_pos hsame hc
+  have hpos_iff : 0 < yp ↔ 0 < y0 := by
+    rw [hyp]
+    constructor
+    · intro h1
+      by_contra hcn
+      push Not at hcn
+      nlinarith [mul_nonneg (neg_nonneg.mpr hcn) hc.le]
+    · intro h1
+      exact mul_pos h1 hc
+  refine ⟨?_, dist_term_pos_iff y yp hsgn, ?_, ?_⟩
+  · rw [distortion_height_unfold]
+    simp only [List.zipWith_cons_cons, List.headD_cons, List.tail_cons]
+    congr 1
+    have : y0 / eps10 * eps10 = y0 := div_mul_cancel₀ y0 he.ne'
+    rw [this, sub_self, mul_zero, zero_div]
+  · rw [Ne, (dist_term_abs_differs_iff y yp hyp0).1, hpos_iff]
+    constructor
+    · intro hn
+      push Not at hn
+      exact ⟨lt_of_le_of_ne hn.1 hy0, hn.2⟩
+    · rintro ⟨h1, h2⟩ hn
+      rcases hn with h3 | h3
+      · exact lt_asymm h1 h3
+      · exact h2 h3
+  · intro h1
+    apply (dist_term_abs_differs_iff y yp hyp0).2
+    by_contra hcn
+    push Not at hcn
+    have : 0 < yp := lt_of_le_of_ne hcn (Ne.symm hyp0)
+    exact lt_asymm h1 (hpos_iff.mp this)
+
+example : (-3 : ℝ) ≠ 0 ∧ (0 : ℝ) < 1 / 2 ∧ (0 : ℝ) < (-2) * (-3) := by norm_num
+
+/-- **distortion_inverted_image**: negating every chief-ray height (the same lens with an inverted
+image) leaves the reported distortion unchanged, for both distortion types and for the
+object-height reference: the code's sign convention follows the signed paraxial height.
+(No guard: over ℝ the junk quotient `x/0 = 0` is also invariant; NumPy gives `nan` on both sides.) -/
+theorem distortion_inverted_image (t : DistType) (maxField : ℝ) (hy yr : List ℝ) :
+    distortion_code t maxField hy (yr.map (fun y => -y)) = distortion_code t maxField hy yr ∧
+    distortion_height hy (yr.map (fun y => -y)) = distortion_height hy yr := by
+  have hhead : (yr.map (fun y : ℝ => -y)).headD 0 = -(yr.headD 0) := by
+    cases yr <;> simp
+  constructor
+  · rw [distortion_def, distortion_def, hhead, List.zipWith_map_right]
+    congr 1
+    funext h y
+    have e : yRef t (maxField * (Real.pi / 180)) (-(yr.headD 0)) h
+        = -(yRef t (maxField * (Real.pi / 180)) (yr.headD 0) h) := by
+      cases t <;> (simp only [yRef]; ring)
+    rw [e]
+    have e2 : 100 * (-y - -yRef t (maxField * (Real.pi / 180)) (yr.headD 0) h)
+        = -(100 * (y - yRef t (maxField * (Real.pi / 180)) (yr.headD 0) h)) := by ring
+    rw [e2, neg_div_neg_eq]
+  · rw [distortion_height_unfold, distortion_height_unfold, hhead, List.zipWith_map_right]
+    congr 1
+    funext h y
+    have e : -(yr.headD 0) / eps10 * h = -(yr.headD 0 / eps10 * h) := by ring
+    rw [e]
+    have e2 : 100 * (-y - -(yr.headD 0 / eps10 * h)) = -(100 * (y - yr.headD 0 / eps10 * h)) := by ring
+    rw [e2, neg_div_neg_eq]
+
+/-! #### (b) field curvature: each parabasal ray's own z; sagittal pair by symmetry -/
+
+/-- **fcTangential_own_z**: on a curved image surface the two tangential parabasal rays end at
+different `z`; `FieldCurvature` uses each ray's own end point.  Taking both `z` from ray 1's slice
+(the seeded slip) changes the value by `M₂ (z₁ − z₂)/(M₁N₂ − M₂N₁)·N₁`, hence gives the same
+answer iff `M₂ (z₁ − z₂) N₁ = 0` (flat image `z₁ = z₂`, or the second ray parallel to the axis). -/
+theorem fcTangential_own_z (r1 r2 : Ray ℝ) (hD : r1.M * r2.N - r2.M * r1.N ≠ 0) :
+    fcTangential [r1, r2] =
+      [parabasalT r1.y r1.z r1.M r1.N r2.y r1.z r2.M r2.N * r1.N
+        + r2.M * (r1.z - r2.z) * r1.N / (r1.M * r2.N - r2.M * r1.N)] ∧
+    (fcTangential [r1, r2] = [parabasalT r1.y r1.z r1.M r1.N r2.y r1.z r2.M r2.N * r1.N]
+      ↔ r2.M * (r1.z - r2.z) * r1.N = 0) := by
+  have key : parabasalT r1.y r1.z r1.M r1.N r2.y r2.z r2.M r2.N * r1.N =
+      parabasalT r1.y r1.z r1.M r1.N r2.y r1.z r2.M r2.N * r1.N
+        + r2.M * (r1.z - r2.z) * r1.N / (r1.M * r2.N - r2.M * r1.N) := by
+    unfold parabasalT
+    num_real
+    field_simp
+    ring
+  have hf : fcTangential [r1, r2] = [parabasalT r1.y r1.z r1.M r1.N r2.y r2.z r2.M r2.N * r1.N] := rfl
+  rw [hf, key]
+  refine ⟨rfl, ?_⟩
+  rw [List.cons.injEq]
+  constructor
+  · rintro ⟨h, _⟩
+    have h0 : r2.M * (r1.z - r2.z) * r1.N / (r1.M * r2.N - r2.M * r1.N) = 0 := by linarith
+    rcases div_eq_zero_iff.mp h0 with h1 | h1
+    · exact h1
+    · exact absurd h1 hD
+  · intro h
+    rw [h, zero_div, add_zero]
+    exact ⟨rfl, rfl⟩
+
+example : ∃ r1 r2 : Ray ℝ, r1.M * r2.N - r2.M * r1.N ≠ 0 ∧ r2.M * (r1.z - r2.z) * r1.N ≠ 0 :=
+  ⟨{ x := 0, y := 1, z := 0, L := 0, M := 0, N := 1, i := 1, opd := 0 },
+   { x := 0, y := 2, z := 1, L := 0, M := 1, N := 1, i := 1, opd := 0 }, by norm_num, by norm_num⟩
+
+/-- **fcSagittal_mirror_pair**: the two sagittal parabasal rays (`Px = ∓δ`, `Hx = 0`) of a system
+symmetric about the meridional plane are mirror images (`x ↦ −x`, `L ↦ −L`, same `z`, `N`).  For such
+a pair the sagittal value is `−x₁/L₁ · N₁`: no `z` enters (the pair ends at the SAME `z` also on a
+curved image, so the slice the `z`'s are read from is immaterial), the rays meet on the meridional
+plane `x = 0`, and replacing ray 2's `z` by ray 1's changes nothing.
+(The mirror relation itself is a hypothesis on the records; it is not derived from `traceLens` here.) -/
+theorem fcSagittal_mirror_pair (r1 r2 : Ray ℝ) (hx : r2.x = -r1.x) (hL : r2.L = -r1.L) (hz : r2.z = r1.z)
+    (hN : r2.N = r1.N) (hL0 : r1.L ≠ 0) (hN0 : r1.N ≠ 0) :
+    fcSagittal [r1, r2] = [-(r1.x / r1.L) * r1.N] ∧
+    r1.x + (-(r1.x / r1.L)) * r1.L = 0 ∧
+    fcSagittal [r1, { r2 with z := r1.z }] = fcSagittal [r1, r2] := by
+  have hf : ∀ r : Ray ℝ, fcSagittal [r1, r] = [parabasalT r1.x r1.z r1.L r1.N r.x r.z r.L r.N * r1.N] :=
+    fun _ => rfl
+  refine ⟨?_, ?_, ?_⟩
+  · rw [hf, hx, hL, hz, hN]
+    unfold parabasalT
+    num_real
+    congr 1
+    field_simp
+    ring
+  · field_simp
+    ring
+  · rw [hf, hf]
+    simp only [hz]
+
+example : ∃ r1 r2 : Ray ℝ, r2.x = -r1.x ∧ r2.L = -r1.L ∧ r2.z = r1.z ∧ r2.N = r1.N ∧ r1.L ≠ 0 ∧ r1.N ≠ 0 :=
+  ⟨{ x := 1, y := 1, z := 3, L := -1, M := 0, N := 1, i := 1, opd := 0 },
+   { x := -1, y := 1, z := 3, L := 1, M := 0, N := 1, i := 1, opd := 0 }, by norm_num, by norm_num, rfl, rfl,
+   by norm_num, by norm_num⟩
+
+/-! #### (c) spot diagrams: centring on a copy, invariance of the radii -/
+
+/-- centring twice is centring by the sum -/
+theorem center_center (s : Spot ℝ) (c d : ℝ × ℝ) :
+    center (center s c) d = center s (c.1 + d.1, c.2 + d.2) := by
+  unfold center
+  simp only [List.map_map, Spot.mk.injEq, and_true]
+  num_real
+  constructor <;> (apply List.map_congr_left; intro a _; simp only [Function.comp]; ring)
+
+/-- centring by zero is the identity (what a second radius query would do to already centred data) -/
+theorem center_zero (s : Spot ℝ) : center s (0, 0) = s := by
+  unfold center
+  num_real
+  simp
+
+/-- **radii_translation_invariant**: the RMS and geometric radii about the spot's own centroid do
+not change when the whole spot is translated (in particular when it has already been centred) -/
+theorem radii_translation_invariant (s : Spot ℝ) (d : ℝ × ℝ) (hx : s.x ≠ []) (hy : s.y ≠ []) :
+    rmsOf (center (center s d) (centroidOf (center s d))) = rmsOf (center s (centroidOf s)) ∧
+    geoOf (center (center s d) (centroidOf (center s d))) = geoOf (center s (centroidOf s)) := by
+  have e : center (center s d) (centroidOf (center s d)) = center s (centroidOf s) := by
+    rw [centroid_translation s d hx hy, center_center]
+    congr 1
+    ext <;> simp
+  rw [e]
+  exact ⟨rfl, rfl⟩
+
+theorem centerSpots_map (data : SpotData ℝ) (f : List (Spot ℝ) → ℝ × ℝ) :
+    centerSpots data (data.map f) = data.map (fun fd => fd.map (center · (f fd))) := by
+  unfold centerSpots
+  induction data with
+  | nil => rfl
+  | cons a l ih => simp only [List.map_cons, List.zipWith_cons_cons, ih]
+
+/-- **centring_on_copy**: `rms_spot_radius` / `geometric_spot_radius` centre a COPY.  In the model
+the queries are functions of `data` (it cannot change); what the theorem adds is that a
+hypothetical in-place centring would not be observable through the radii but WOULD be through
+`centroid()`: for data whose reference spots (index `p`) are non-empty, after centring with
+`centroid()` the centroids are all `(0,0)` (so `centroid()` must be taken from the untouched data),
+centring again with the new centroids is the identity, and all radii are unchanged. -/
+theorem centring_on_copy (data : SpotData ℝ) (p : Nat)
+    (hok : ∀ fd ∈ data, p < fd.length ∧ (fd.getD p default).x ≠ [] ∧ (fd.getD p default).y ≠ []) :
+    let cen := fun fd : List (Spot ℝ) => centroidOf (fd.getD p default)
+    let data' := centerSpots data (data.map cen)
+    data'.map cen = data.map (fun _ => ((0 : ℝ), (0 : ℝ))) ∧
+    centerSpots data' (data'.map cen) = data' ∧
+    rmsSpotRadius data' (data'.map cen) = rmsSpotRadius data (data.map cen) ∧
+    geometricSpotRadius data' (data'.map cen) = geometricSpotRadius data (data.map cen) := by
+  intro cen data'
+  have hd : data' = data.map (fun fd => fd.map (center · (cen fd))) := centerSpots_map data cen
+  have h1 : data'.map cen = data.map (fun _ => ((0 : ℝ), (0 : ℝ))) := by
+    rw [hd, List.map_map]
+    apply List.map_congr_left
+    intro fd hfd
+    obtain ⟨hp, hx, hy⟩ := hok fd hfd
+    show centroidOf ((fd.map (center · (cen fd))).getD p default) = (0, 0)
+    have : (fd.map (center · (cen fd))).getD p default = center (fd.getD p default) (cen fd) := by
+      simp [List.getD_eq_getElem?_getD, List.getElem?_map, List.getElem?_eq_getElem hp]
+    rw [this]
+    exact centred_centroid_zero _ hx hy
+  have h2 : centerSpots data' (data'.map cen) = data' := by
+    rw [centerSpots_map]
+    conv_rhs => rw [← List.map_id data']
+    apply List.map_congr_left
+    intro fd' hfd'
+    have hc : cen fd' = (0, 0) := by
+      have hm : cen fd' ∈ data'.map cen := List.mem_map.mpr ⟨fd', hfd', rfl⟩
+      rw [h1] at hm
+      obtain ⟨_, _, hv⟩ := List.mem_map.mp hm
+      exact hv.symm
+    rw [hc]
+    simp only [center_zero, List.map_id', id]
+  refine ⟨h1, h2, ?_, ?_⟩
+  · unfold rmsSpotRadius
+    rw [h2]
+  · unfold geometricSpotRadius
+    rw [h2]
+
+example : ∀ fd ∈ ([[⟨[0, 1], [2, 3], [1, 1]⟩, ⟨[5], [6], [1]⟩]] : SpotData ℝ),
+    0 < fd.length ∧ (fd.getD 0 default).x ≠ [] ∧ (fd.getD 0 default).y ≠ [] := by
+  intro fd hfd
+  simp only [List.mem_singleton] at hfd
+  subst hfd
+  simp
+
+/-- an in-place centring WOULD be visible in `centroid()`: concrete data whose centroid is not zero -/
+theorem centroid_changes_if_centred_in_place :
+    let data : SpotData ℝ := [[⟨[1, 3], [2, 4], [1, 1]⟩]]
+    centroid_code data 0 = some [(2, 3)] ∧
+    centroid_code (centerSpots data [(2, 3)]) 0 = some [(0, 0)] := by
+  simp only [centroid_code, centerSpots, center, centroidOf, mean_eq]
+  num_real
+  norm_num
+
+/-! `RayOperand.rms_spot_size(wavelength='all')`: same pupil samples for every wavelength -/
+
+theorem flatten_replicate_sum_len (l : List ℝ) (n : ℕ) :
+    ((List.replicate n l).flatten).sum = n * l.sum ∧
+    ((List.replicate n l).flatten).length = n * l.length := by
+  induction n with
+  | zero => simp
+  | succ k ih =>
+    rw [List.replicate_succ, List.flatten_cons, List.sum_append, List.length_append, ih.1, ih.2]
+    constructor
+    · push_cast; ring
+    · ring
+
+theorem mean_flatten_replicate (l : List ℝ) (n : ℕ) :
+    mean ((List.replicate (n + 1) l).flatten) = mean l := by
+  rw [mean_eq, mean_eq]
+  obtain ⟨h1, h2⟩ := flatten_replicate_sum_len l (n + 1)
+  rw [h1, h2]
+  push_cast
+  have hn : ((n : ℝ) + 1) ≠ 0 := by positivity
+  rw [mul_div_mul_left _ _ hn]
+
+/-- **opRmsAll_same_samples**: the `'all'` operand traces the SAME `(Hx, Hy, num_rays,
+distribution)` for every wavelength.  Consequence proved here: when the records do not depend on
+the wavelength (all-reflective lens) the `'all'` value over `n+1` wavelengths equals the
+single-wavelength value, whichever wavelength is primary — which fails for a sampler that changes
+between wavelengths. -/
+theorem opRmsAll_same_samples (rs : List (Ray ℝ)) (n p : ℕ) (hp : p ≤ n) :
+    opRmsAll (List.replicate (n + 1) rs) p = opRmsSingle rs := by
+  have hget : (List.replicate (n + 1) rs).getD p [] = rs := by
+    simp [List.getD_eq_getElem?_getD, Nat.lt_succ_of_le hp]
+  unfold opRmsAll opRmsSingle
+  simp only [hget, List.zipWith_map, List.zipWith_self]
+  congr 1
+  rw [List.flatMap_def, List.map_replicate, mean_flatten_replicate]
+
+/-! #### (d) ray fans: symmetric sampling; y-ybar -/
+
+/-- entries of `np.linspace(a, b, m+2)` -/
+theorem linspace_getD (a b : ℝ) (m i : ℕ) (hi : i < m + 2) :
+    (linspace a b (m + 2)).getD i 0 =
+      if i = m + 1 then b else (i : ℝ) * ((b - a) / ((m + 1 : ℕ) : ℝ)) + a := by
+  unfold linspace
+  simp only [List.getD_eq_getElem?_getD, List.getElem?_map, List.getElem?_range hi, Option.map_some,
+    Option.getD_some]
+  split_ifs
+  · rfl
+  · num_real
+    rw [ofNat_eq, ofNat_eq]
+
+/-- **linspace_symmetric**: `linspace(−c, c, n)` (`n ≥ 2`) is symmetric, entry `n−1−i` is minus
+entry `i` — the pupil samples of `RayFan` (`c = 1`) and the extent of `GridDistortion`
+(`c = √2/2`) -/
+theorem linspace_symmetric (c : ℝ) (m i : ℕ) (hi : i ≤ m + 1) :
+    (linspace (-c) c (m + 2)).getD (m + 1 - i) 0 = -((linspace (-c) c (m + 2)).getD i 0) := by
+  rw [linspace_getD _ _ _ _ (by omega), linspace_getD _ _ _ _ (by omega)]
+  have hm : ((m + 1 : ℕ) : ℝ) ≠ 0 := by positivity
+  by_cases h1 : i = m + 1
+  · have h0 : m + 1 - i = 0 := by omega
+    rw [if_pos h1, h0, if_neg (by omega)]
+    simp
+  · by_cases h2 : i = 0
+    · subst h2
+      have e : m + 1 - 0 = m + 1 := by omega
+      rw [e, if_pos rfl, if_neg (by omega)]
+      simp
+    · rw [if_neg (by omega), if_neg h1, Nat.cast_sub hi]
+      field_simp
+      ring
+
+/-- **fanPupil_symmetric**: `RayFan`'s pupil samples are symmetric about `0`, and the middle
+sample `num_points // 2` (the reference of `fanOffsets`) is the chief ray `P = 0` — provided
+`num_points ≥ 2` (after the odd-forcing: `≥ 3`). -/
+theorem fanPupil_symmetric (n : ℕ) (h2 : 2 ≤ n) :
+    (∀ i, i < oddPoints n →
+      (fanPupil n : List ℝ).getD (oddPoints n - 1 - i) 0 = -((fanPupil n : List ℝ).getD i 0)) ∧
+    (fanPupil n : List ℝ).getD (oddPoints n / 2) 0 = 0 ∧ oddPoints n / 2 < (fanPupil n : List ℝ).length := by
+  obtain ⟨j, hj⟩ : ∃ j, oddPoints n = 2 * j + 3 := by
+    unfold oddPoints
+    split_ifs with h
+    · exact ⟨(n - 2) / 2, by omega⟩
+    · exact ⟨(n - 3) / 2, by omega⟩
+  have hfp : (fanPupil n : List ℝ) = linspace (-1) 1 (2 * j + 1 + 2) := by
+    unfold fanPupil
+    rw [hj]
+    num_real
+  refine ⟨?_, ?_, ?_⟩
+  · intro i hi
+    rw [hfp, hj]
+    have := linspace_symmetric 1 (2 * j + 1) i (by omega)
+    have e : 2 * j + 3 - 1 - i = 2 * j + 1 + 1 - i := by omega
+    rw [e]
+    exact this
+  · have hmid : oddPoints n / 2 = j + 1 := by omega
+    have hs := linspace_symmetric 1 (2 * j + 1) (j + 1) (by omega)
+    have e : 2 * j + 1 + 1 - (j + 1) = j + 1 := by omega
+    rw [e] at hs
+    rw [hfp, hmid]
+    linarith
+  · rw [hfp]
+    unfold linspace
+    simp only [List.length_map, List.length_range]
+    omega
+
+example : (2 : ℕ) ≤ 5 := by norm_num
+
+/-- FINDING (edge case): for `num_points ≤ 1` the fan has the single sample `linspace(−1, 1, 1) = [−1]`,
+so the "centre" sample `num_points // 2 = 0` that `RayFan` subtracts as the chief-ray reference is the
+marginal ray `P = −1`, not `P = 0` (the comment "force to be odd so a point lies at P=0" fails). -/
+theorem fanPupil_one_point_not_chief :
+    oddPoints 1 = 1 ∧ oddPoints 0 = 1 ∧ (fanPupil 1 : List ℝ) = [-1] ∧
+    (fanPupil 1 : List ℝ).getD (oddPoints 1 / 2) 0 ≠ 0 := by
+  have h : (fanPupil 1 : List ℝ) = [-1] := by
+    unfold fanPupil oddPoints linspace
+    num_real
+    simp
+  refine ⟨rfl, rfl, h, ?_⟩
+  rw [h]
+  norm_num [oddPoints]
+
+open scoped Num in
+/-- **yybar_segments_spec**: `YYbar` plots `len − 2` segments; segment `i` joins surface `i+1` to
+surface `i+2` in the `(ȳ, y)` plane, consecutive segments share their end point (a connected
+polyline from surface 1 to the image surface), nothing else of the traces enters. -/
+theorem yybar_segments_spec {α : Type} [Num α] (ya yb : List α) :
+    (yybarSegments ya yb).length = ya.length - 2 ∧
+    (∀ i, i < ya.length - 2 → (yybarSegments ya yb)[i]? =
+      some (yb.getD (i + 1) 0, yb.getD (i + 2) 0, ya.getD (i + 1) 0, ya.getD (i + 2) 0)) ∧
+    (∀ i, i + 1 < ya.length - 2 → ∀ s s', (yybarSegments ya yb)[i]? = some s →
+      (yybarSegments ya yb)[i + 1]? = some s' → s'.1 = s.2.1 ∧ s'.2.2.1 = s.2.2.2) := by
+  have hidx : ∀ i, i < ya.length - 2 → (yybarSegments ya yb)[i]? =
+      some (yb.getD (i + 1) 0, yb.getD (i + 2) 0, ya.getD (i + 1) 0, ya.getD (i + 2) 0) := by
+    intro i hi
+    unfold yybarSegments
+    simp only [List.getElem?_map, List.getElem?_range hi, Option.map_some]
+    rfl
+  refine ⟨by simp [yybarSegments], hidx, ?_⟩
+  intro i hi s s' hs hs'
+  rw [hidx i (by omega)] at hs
+  rw [hidx (i + 1) hi] at hs'
+  cases hs
+  cases hs'
+  exact ⟨rfl, rfl⟩
+
+/-- **pupilAb_spec**: every value of `PupilAberration` is `(paraxial − real)/d·100` at the stop, and
+it vanishes exactly when the real ray hits the stop at the paraxial coordinate (`d ≠ 0`, ray not
+vignetted); one-sample form -/
+theorem pupilAb_spec (pr re d i : ℝ) (hd : d ≠ 0) (hi : i ≠ 0) :
+    pupilAb [pr] d [re] [i] = [(pr - re) / d * 100] ∧ (pupilAb [pr] d [re] [i] = [0] ↔ re = pr) := by
+  have h : pupilAb [pr] d [re] [i] = [(pr - re) / d * 100] := by
+    unfold pupilAb
+    simp only [List.zip_cons_cons, List.zip_nil_right, List.zipWith_cons_cons, List.zipWith_nil_right]
+    have hz : Num.isZero i = false := by
+      rw [← Bool.not_eq_true, NumReal.isZero_eq]
+      exact hi
+    rw [hz]
+    simp only [Bool.false_eq_true, if_false, hundred_val]
+  rw [h]
+  refine ⟨rfl, ?_⟩
+  rw [List.cons.injEq]
+  constructor
+  · rintro ⟨h0, _⟩
+    have h100 : (100 : ℝ) ≠ 0 := by norm_num
+    have h1 : (pr - re) / d = 0 := (mul_eq_zero.mp h0).resolve_right h100
+    have h2 : pr - re = 0 := (div_eq_zero_iff.mp h1).resolve_right hd
+    linarith
+  · intro e
+    rw [e, sub_self, zero_div, zero_mul]
+    exact ⟨rfl, rfl⟩
+
+example : (2 : ℝ) ≠ 0 ∧ (1 : ℝ) ≠ 0 := by norm_num
+
+/-! #### further consequences -/
+
+/-- **fcTangential_same_slice_misses_focus**: for two tangential parabasal rays that really pass through a
+common focus `(yf, zf)`, `FieldCurvature` (own `z` per ray) returns the focus' z-offset `zf − z₁`,
+while the same-slice variant does NOT whenever `M₂ (z₁ − z₂) N₁ ≠ 0` (curved image). -/
+theorem fcTangential_same_slice_misses_focus (r1 r2 : Ray ℝ) (yf zf a b : ℝ)
+    (hD : r1.M * r2.N - r2.M * r1.N ≠ 0)
+    (h1y : yf = r1.y + a * r1.M) (h1z : zf = r1.z + a * r1.N)
+    (h2y : yf = r2.y + b * r2.M) (h2z : zf = r2.z + b * r2.N)
+    (hne : r2.M * (r1.z - r2.z) * r1.N ≠ 0) :
+    fcTangential [r1, r2] = [zf - r1.z] ∧
+    parabasalT r1.y r1.z r1.M r1.N r2.y r1.z r2.M r2.N * r1.N ≠ zf - r1.z := by
+  have hc := coddington_partial r1.y r1.z r1.M r1.N r2.y r2.z r2.M r2.N yf zf a b hD h1y h1z h2y h2z
+  have hf : fcTangential [r1, r2] = [parabasalT r1.y r1.z r1.M r1.N r2.y r2.z r2.M r2.N * r1.N] := rfl
+  refine ⟨by rw [hf, hc], ?_⟩
+  intro hs
+  have h := (fcTangential_own_z r1 r2 hD).2.mp (by rw [hf, hc, hs])
+  exact hne h
+
+example : ∃ (r1 r2 : Ray ℝ) (yf zf a b : ℝ), r1.M * r2.N - r2.M * r1.N ≠ 0 ∧
+    yf = r1.y + a * r1.M ∧ zf = r1.z + a * r1.N ∧ yf = r2.y + b * r2.M ∧ zf = r2.z + b * r2.N ∧
+    r2.M * (r1.z - r2.z) * r1.N ≠ 0 :=
+  ⟨{ x := 0, y := 1, z := 0, L := 0, M := 0, N := 1, i := 1, opd := 0 },
+   { x := 0, y := 2, z := 1, L := 0, M := -1, N := 1, i := 1, opd := 0 }, 1, 2, 2, 1,
+   by norm_num, by norm_num, by norm_num, by norm_num, by norm_num, by norm_num⟩
+
+theorem flatten_equal_length (ls : List (List ℝ)) (k : ℕ) (hk : 0 < k) (h : ∀ l ∈ ls, l.length = k) :
+    (ls.map mean).sum * (k : ℝ) = ls.flatten.sum ∧ ls.flatten.length = ls.length * k := by
+  have hk' : (k : ℝ) ≠ 0 := by positivity
+  induction ls with
+  | nil => simp
+  | cons a l ih =>
+    obtain ⟨i1, i2⟩ := ih (fun l' hl' => h l' (List.mem_cons_of_mem _ hl'))
+    have ha : a.length = k := h a List.mem_cons_self
+    rw [List.map_cons, List.sum_cons, List.flatten_cons, List.sum_append, List.length_append, i2, ha,
+      List.length_cons, ← i1, mean_eq, ha]
+    constructor
+    · field_simp
+    · ring
+
+/-- **opRmsAll_mean_of_wavelength_means**: because `rms_spot_size('all')` traces the SAME number of
+pupil samples `k` for every wavelength, its square is the plain (unweighted) mean over the
+wavelengths of the per-wavelength mean squared distances from the primary-wavelength centroid. -/
+theorem opRmsAll_mean_of_wavelength_means (rss : List (List (Ray ℝ))) (p k : ℕ) (hk : 0 < k)
+    (hlen : ∀ rs ∈ rss, rs.length = k) :
+    let mx := mean ((rss.getD p []).map (·.x))
+    let my := mean ((rss.getD p []).map (·.y))
+    opRmsAll rss p = Real.sqrt (mean (rss.map fun rs =>
+      mean (rs.map fun r => (r.x - mx) * (r.x - mx) + (r.y - my) * (r.y - my)))) := by
+  intro mx my
+  unfold opRmsAll
+  simp only []
+  rw [NumReal.sqrt_eq]
+  congr 1
+  set g : Ray ℝ → ℝ := fun r => (r.x - mx) * (r.x - mx) + (r.y - my) * (r.y - my) with hg
+  have hgoal : mean (rss.flatMap fun rs => rs.map g) = mean (rss.map fun rs => mean (rs.map g)) := by
+    rw [List.flatMap_def]
+    obtain ⟨h1, h2⟩ := flatten_equal_length (rss.map fun rs => rs.map g) k hk (by
+      intro l hl
+      obtain ⟨rs, hrs, rfl⟩ := List.mem_map.mp hl
+      rw [List.length_map]
+      exact hlen rs hrs)
+    rw [List.map_map] at h1
+    rw [mean_eq, mean_eq, h2, ← h1, List.length_map, List.length_map]
+    have hk' : (k : ℝ) ≠ 0 := by positivity
+    push_cast
+    by_cases hn : (rss.length : ℝ) = 0
+    · rw [hn]; simp
+    · field_simp
+      rfl
+  exact hgoal
+
+example : ∀ rs ∈ ([[default, default], [default, default]] : List (List (Ray ℝ))), rs.length = 2 := by
+  intro rs h
+  simp only [List.mem_cons, List.mem_nil_iff, or_false] at h
+  rcases h with rfl | rfl <;> rfl
+
+/-- **rmsVsField_samples**: `RmsSpotSizeVsField` samples `Hy` from `0` to `1` in non-decreasing order
+(`num_fields ≥ 2`). -/
+theorem rmsVsField_samples (m : ℕ) :
+    (rmsVsFieldHy (m + 2) : List ℝ).getD 0 7 = 0 ∧ (rmsVsFieldHy (m + 2) : List ℝ).getLast? = some 1 ∧
+    (rmsVsFieldHy (m + 2) : List ℝ).Pairwise (· ≤ ·) ∧ (rmsVsFieldHy (m + 2) : List ℝ).length = m + 2 := by
+  have e : (rmsVsFieldHy (m + 2) : List ℝ) = linspace 0 1 (m + 2) := by
+    unfold rmsVsFieldHy
+    num_real
+  rw [e]
+  refine ⟨?_, linspace_last 0 1 m, linspace_zero_mono 1 zero_le_one (m + 2), ?_⟩
+  · unfold linspace
+    simp only [List.getD_eq_getElem?_getD, List.getElem?_map, List.getElem?_range (show 0 < m + 2 by omega),
+      Option.map_some, Option.getD_some]
+    rw [if_neg (by omega)]
+    num_real
+    rw [ofNat_eq]
+    simp
+  · unfold linspace
+    simp
+
+theorem getD_map_sub_self (l : List ℝ) (k : ℕ) (hk : k < l.length) :
+    (l.map (fun x => x - l.getD k 0)).getD k 0 = 0 := by
+  simp [List.getD_eq_getElem?_getD, List.getElem?_eq_getElem hk]
+
+/-- **rayFan_reference_zero**: after `RayFan`'s referencing, the centre sample (`num_points // 2`) of the
+reference wavelength's fans is exactly `0` in both `x` and `y`: the fans are measured from the
+primary-wavelength chief ray (one field; the other wavelengths are shifted by the same offset). -/
+theorem rayFan_reference_zero (fd : List (Fan ℝ)) (j n : ℕ) (hj : j < fd.length)
+    (hx : n / 2 < (fd.getD j default).x.length) (hy : n / 2 < (fd.getD j default).y.length) :
+    let o := ((fd.getD j default).x.getD (n / 2) 0, (fd.getD j default).y.getD (n / 2) 0)
+    fanShift [fd] (fanOffsets [fd] j n) = [fd.map (fun f : Fan ℝ => f.shift o)] ∧
+    ((fd.map (fun f : Fan ℝ => f.shift o)).getD j default).x.getD (n / 2) 0 = 0 ∧
+    ((fd.map (fun f : Fan ℝ => f.shift o)).getD j default).y.getD (n / 2) 0 = 0 := by
+  intro o
+  have hm : (fd.map (fun f : Fan ℝ => f.shift o)).getD j default = (fd.getD j default).shift o := by
+    simp [List.getD_eq_getElem?_getD, List.getElem?_map, List.getElem?_eq_getElem hj]
+  refine ⟨rfl, ?_, ?_⟩
+  · rw [hm]
+    exact getD_map_sub_self (fd.getD j default).x (n / 2) hx
+  · rw [hm]
+    exact getD_map_sub_self (fd.getD j default).y (n / 2) hy
+
+example : ∃ fd : List (Fan ℝ), 0 < fd.length ∧ 3 / 2 < (fd.getD 0 default).x.length ∧
+    3 / 2 < (fd.getD 0 default).y.length :=
+  ⟨[⟨[1, 2, 3], [1, 1, 1], [4, 5, 6], [1, 1, 1]⟩], by simp, by simp, by simp⟩
 
 end C12
